@@ -118,9 +118,14 @@ func (r *scopeRegistry) Report(reporter StatsReporter) {
 		subscopeBucket.mu.RLock()
 
 		for name, s := range subscopeBucket.s {
+			// n.b. Read the flag before reporting: everything recorded before
+			//      Close was called is then covered by this report, whereas a
+			//      Close that slips in after the report would otherwise drop
+			//      what was recorded in between.
+			closed := s.closed.Load()
 			s.report(reporter)
 
-			if s.closed.Load() {
+			if closed {
 				r.removeWithRLock(subscopeBucket, name, s)
 				s.clearMetrics()
 			}
@@ -138,9 +143,10 @@ func (r *scopeRegistry) CachedReport() {
 		subscopeBucket.mu.RLock()
 
 		for name, s := range subscopeBucket.s {
+			closed := s.closed.Load()
 			s.cachedReport()
 
-			if s.closed.Load() {
+			if closed {
 				r.removeWithRLock(subscopeBucket, name, s)
 				s.clearMetrics()
 			}
